@@ -36,6 +36,27 @@ import c17_media as media
 
 CTYPE = {"video": 0, "audio": 1, "text": 2}
 
+# Titles are opaque to the model; the line protocol cannot carry blanks, `:` `;` `,` `|`, so titles with such
+# characters travel as a token (a token is shorter than 3 characters exactly when the title is: the only thing the
+# application looks at is `len(title) < 3` of a multi-period stream).
+TITLE_TOKENS = {
+    "Tamp": 'A&B <x> "q" \'s\' &lt; &#0;', "Tbrace": "{stream} {0} }{ %41+%2B a=b;c", "Tutf": "Grüße – 東京 ✓",
+    "Tlong": "L" + "o" * 110 + "ng", "Tjson": '{"a": [1, null, true]}', "T0x": "0x1f 9e4 1000.0",
+    "Xy": "&<", "Uu": "ü",
+}
+TOKEN_OF_TITLE = {v: k for k, v in TITLE_TOKENS.items()}
+
+
+def title_text(token: str) -> str:
+    return TITLE_TOKENS.get(token, token)
+
+
+def title_token(text: str) -> str:
+    if text in TOKEN_OF_TITLE:
+        return TOKEN_OF_TITLE[text]
+    import re
+    return text if re.fullmatch(r"[A-Za-z0-9_.\-]+", text or "") else "hex" + (text or "").encode().hex()
+
 
 class HarnessError(Exception):
     pass
@@ -49,7 +70,14 @@ class World:
         self.blob_folder = Path(self.a.blob_folder)
         self.fixtures = str(appboot.FIXTURES)
         self.c = self.app.test_client()
+        self.actors: dict = {}
         self._login()
+        self.actors["media"] = (self.c, self.jwt, self.csrf_key)
+        self.c = self.app.test_client()
+        self._login(appboot.ADMIN)
+        self.actors["admin"] = (self.c, self.jwt, self.csrf_key)
+        self.actor = "media"
+        self.use_actor("media")
         with self.app.app_context():
             self.models.db.session.remove()
             rc = self.models.db.engine.raw_connection()
@@ -62,8 +90,16 @@ class World:
         self.requests = 0
         self.last_status: dict[str, int] = {}
 
-    def _login(self):
-        r = self.a.login(self.c, appboot.MEDIA)
+    def use_actor(self, who: str):
+        """the authorised user who sends the following requests: `media` (media group) or `admin`, each with
+        its own session, JWT and CSRF cookie"""
+        self.actor = who
+        self.c, self.jwt, self.csrf_key = self.actors[who]
+
+    def _login(self, who=None):
+        if who is None:
+            who = appboot.ADMIN if getattr(self, "actor", "media") == "admin" else appboot.MEDIA
+        r = self.a.login(self.c, who)
         if r.status_code != 200 or not r.json.get("success"):
             raise HarnessError(f"login failed: {r.status_code}")
         self.jwt = r.json["accessToken"]["jwt"]
@@ -109,7 +145,7 @@ class World:
                                      ([str(int(bool(p[7])))] if len(p) > 7 else [])) for p in ps)
         k = op[0]
         if k == "as":
-            return f"as:{op[1]}:{op[2]}"
+            return f"as:{op[1]}:{op[2]}"                  # titles travel as tokens
         if k == "es":
             return f"es:{op[1]}:{op[2]}:{op[3]}:{op[4] or '-'}"
         if k == "ds":
@@ -166,6 +202,7 @@ class World:
         r = self._send(op)
         if r.status_code == 401:
             self._login()
+            self.actors[self.actor] = (self.c, self.jwt, self.csrf_key)
             r = self._send(op)
         self.requests += 1
         st = r.status_code
@@ -221,10 +258,10 @@ class World:
         c, k = self.c, op[0]
         H = {"Authorization": f"Bearer {self.jwt}"}
         if k == "as":
-            return c.put("/streams/add", json={"title": op[2], "directory": op[1], "marlin_la_url": "",
+            return c.put("/streams/add", json={"title": title_text(op[2]), "directory": op[1], "marlin_la_url": "",
                                                "playready_la_url": "", "csrf_token": self.token("streams")})
         if k == "es":
-            return c.post(f"/stream/{op[1]}", json={"title": op[3], "directory": op[2], "marlin_la_url": "",
+            return c.post(f"/stream/{op[1]}", json={"title": title_text(op[3]), "directory": op[2], "marlin_la_url": "",
                                                     "playready_la_url": "", "timing_ref": op[4] or "",
                                                     "csrf_token": self.token("streams")})
         if k == "sd":
@@ -262,11 +299,11 @@ class World:
             return c.delete(f"/key/{op[1]}/delete", query_string={"ajax": "1", "csrf_token": self.token("keys")})
         if k == "am":
             return c.put("/api/multi-period-streams/.add", headers=H,
-                         json={"name": op[1], "title": op[2], "periods": self._periods_json(op[3]),
+                         json={"name": op[1], "title": title_text(op[2]), "periods": self._periods_json(op[3]),
                                "csrf_token": self.token("streams")})
         if k == "mm":
             return c.post(f"/api/multi-period-streams/{op[1]}", headers=H,
-                          json={"pk": op[2], "name": op[3], "title": op[4], "options": None,
+                          json={"pk": op[2], "name": op[3], "title": title_text(op[4]), "options": None,
                                 "periods": self._periods_json(op[5]), "csrf_token": self.token("streams")})
         if k == "xm":
             return c.delete(f"/api/multi-period-streams/{op[1]}", headers=H,
@@ -341,13 +378,13 @@ class World:
             er = "+".join(str(x) for x in sorted(errs.get(f["pk"], []))) or "-"
             F.append(f"{f['pk']},{f['name']},{f['stream']},{f['blob']},{rep},{er}")
         return (
-            tab("S", [f"{s['pk']},{s['dir']},{s['title']},{s['tref'] or '-'}"
+            tab("S", [f"{s['pk']},{s['dir']},{title_token(s['title'])},{s['tref'] or '-'}"
                       for s in sorted(rows["streams"], key=lambda x: x["pk"])]) +
             tab("F", F) +
             tab("B", [f"{b['pk']},{b['filename']}" for b in sorted(rows["blobs"], key=lambda x: x["pk"])]) +
             tab("K", [f"{k['pk']},{k['kid']},{int(k['computed'])}" for k in sorted(rows["keys"], key=lambda x: x["pk"])]) +
             tab("L", [f"{a}.{b}" for a, b in sorted(rows["links"])]) +
-            tab("M", [f"{x['pk']},{x['name']},{x['title']}" for x in sorted(rows["mps"], key=lambda x: x["pk"])]) +
+            tab("M", [f"{x['pk']},{x['name']},{title_token(x['title'])}" for x in sorted(rows["mps"], key=lambda x: x["pk"])]) +
             tab("P", [f"{p['pk']},{p['pid']},{p['parent']},{p['stream']},{p['ordering']}"
                       for p in sorted(rows["periods"], key=lambda x: x["pk"])]) +
             tab("A", [f"{x['pk']},{x['period']},{x['track']}" for x in sorted(rows["adps"], key=lambda x: x["pk"])]) +
